@@ -23,8 +23,8 @@ def main():
         runsh = open(os.path.join(mdir, "run.sh")).read()
         def run_demo():
             script = runsh.replace(mdir, "@@MDIR@@")
-            script = re.sub(r"/tmp/mut-C\d+-out/\d+", "@@MDIR@@", script)
-            script = re.sub(r"/tmp/mut-C\d+(?![\d-])", wt, script).replace("@@MDIR@@", mdir)
+            script = re.sub(r"/tmp/mut2?-C\d+-out/\d+", "@@MDIR@@", script)
+            script = re.sub(r"/tmp/mut2?-C\d+(?![\d-])", wt, script).replace("@@MDIR@@", mdir)
             tmp = os.path.join(mdir, ".seed_run.sh")  # next to the demo: scripts may use $(dirname "$0")
             open(tmp, "w").write(script)
             rc, out = sh(["bash", tmp], cwd=wt, timeout=1800)
